@@ -145,6 +145,13 @@ def run_episode(env, td_in, chooser_names, gen, max_steps: int, scripted=None, s
                     a[b] = ca[b]
         else:
             a = choose(chooser_names, mask, td, gen)
+        if scripted is not None:
+            bad = [b for b in range(B) if t < len(scripted[b]) and not bool(mask[b, int(a[b])])]
+            if bad:
+                # the recorded script asks for an action this context does not offer: never execute it (the env's
+                # behaviour on infeasible actions is undefined, FFSP even loops forever); the monitor reports the mask
+                ep.script_infeasible = (t, bad)
+                break
         # a dead end (all-False row) is the monitor's business, not the driver's: stop stepping
         if (~mask.any(-1)).any():
             ep.dead_end_at = t
